@@ -11,50 +11,19 @@
                            here cannot drift away from the model).
     A semantic edit of the Go source changes the generated text and one of these stops compiling. *)
 From Coq Require Import ZArith List Bool String Lia.
-From Canto Require Import Lib.SdkInt Lib.SdkDec Model.Coinswap Gen.KCoinswap.
+From Canto Require Import Lib.SdkInt Lib.SdkDec Model.Coinswap Gen.KCoinswap Gen.AgreeTactics.
 Import ListNotations.
 Open Scope Z_scope.
-
-(** boolean facts to propositions, for the normalising proofs *)
-Ltac b2p :=
-  repeat match goal with
-  | H : negb _ = true |- _ => apply negb_true_iff in H
-  | H : negb _ = false |- _ => apply negb_false_iff in H
-  | H : (_ <? _) = true |- _ => apply Z.ltb_lt in H
-  | H : (_ <? _) = false |- _ => apply Z.ltb_ge in H
-  | H : (_ <=? _) = true |- _ => apply Z.leb_le in H
-  | H : (_ <=? _) = false |- _ => apply Z.leb_gt in H
-  | H : (_ =? _) = true |- _ => apply Z.eqb_eq in H
-  | H : (_ =? _) = false |- _ => apply Z.eqb_neq in H
-  end.
-
-(* destruct, outermost first, every test and every fallible step of the goal *)
-Ltac split_step :=
-  match goal with
-  | |- context [obind ?e _] =>
-      lazymatch e with
-      | context [obind _ _] => fail
-      | context [if _ then _ else _] => fail
-      | _ => destruct e eqn:?; cbn [obind]
-      end
-  | |- context [if ?c then _ else _] =>
-      lazymatch c with
-      | context [if _ then _ else _] => fail
-      | context [obind _ _] => fail
-      | _ => destruct c eqn:?
-      end
-  end.
-Ltac normalise := repeat split_step; try reflexivity; try congruence; try (exfalso; b2p; lia).
 
 (** * Price kernels *)
 
 Lemma agree_GetInputPrice : forall inputAmt inputReserve outputReserve fee,
   gen_GetInputPrice inputAmt inputReserve outputReserve fee = input_price inputAmt inputReserve outputReserve fee.
-Proof. reflexivity. Qed.
+Proof. intros; first [ reflexivity | unfold gen_GetInputPrice, input_price; normalise ]. Qed.
 
 Lemma agree_GetOutputPrice : forall outputAmt inputReserve outputReserve fee,
   gen_GetOutputPrice outputAmt inputReserve outputReserve fee = output_price outputAmt inputReserve outputReserve fee.
-Proof. reflexivity. Qed.
+Proof. intros; first [ reflexivity | unfold gen_GetOutputPrice, output_price; normalise ]. Qed.
 
 Lemma agree_GetInputPrice_inputs : gen_GetInputPrice_inputs = ["arg0"; "arg1"; "arg2"; "arg3"]%string.
 Proof. reflexivity. Qed.
@@ -76,7 +45,10 @@ Definition m_calc_out (aout inres outres fee : Z) : option Z :=
 
 Lemma agree_calculateWithExactInput : forall ain fee inres outres,
   gen_calculateWithExactInput ain fee inres outres = m_calc_in ain inres outres fee.
-Proof. reflexivity. Qed.
+Proof.
+  intros; first [ reflexivity
+                | unfold gen_calculateWithExactInput, m_calc_in; rewrite ?agree_GetInputPrice; normalise ].
+Qed.
 
 Lemma agree_calculateWithExactInput_inputs : gen_calculateWithExactInput_inputs =
   [ "arg1.Amount";                  (* exactSoldCoin.Amount *)
@@ -92,7 +64,7 @@ Lemma agree_calculateWithExactOutput : forall aout fee outres inres,
   gen_calculateWithExactOutput aout fee outres inres = m_calc_out aout inres outres fee.
 Proof.
   intros. unfold gen_calculateWithExactOutput, m_calc_out.
-  rewrite <- Z.ltb_antisym. reflexivity.
+  first [ rewrite <- Z.ltb_antisym; reflexivity | rewrite ?agree_GetOutputPrice; normalise ].
 Qed.
 
 Lemma agree_calculateWithExactOutput_inputs : gen_calculateWithExactOutput_inputs =
@@ -138,8 +110,8 @@ Proof.
   intros wl din ain dout min_out bought mx_in mx_out Hout Hin.
   unfold gen_TradeExactInputForOutput, m_sell_checks, quote.
   destruct (denom_eqb dout Std) eqn:E; cbn [negb].
-  - rewrite (Hin eq_refl). reflexivity.
-  - rewrite (Hout eq_refl). reflexivity.
+  - rewrite (Hin eq_refl). first [ reflexivity | normalise ].
+  - rewrite (Hout eq_refl). first [ reflexivity | normalise ].
 Qed.
 
 Lemma agree_TradeExactInputForOutput_inputs : gen_TradeExactInputForOutput_inputs =
@@ -160,8 +132,8 @@ Proof.
   intros wl din max_in dout aout sold mx_in mx_out Hin Hout.
   unfold gen_TradeInputForExactOutput, m_buy_checks, quote.
   destruct (denom_eqb din Std) eqn:E; cbn [negb].
-  - rewrite (Hout eq_refl). reflexivity.
-  - rewrite (Hin eq_refl). reflexivity.
+  - rewrite (Hout eq_refl). first [ reflexivity | normalise ].
+  - rewrite (Hin eq_refl). first [ reflexivity | normalise ].
 Qed.
 
 Lemma agree_TradeInputForExactOutput_inputs : gen_TradeInputForExactOutput_inputs =
@@ -259,16 +231,17 @@ Proof.
   unfold gen_AddLiquidity, m_add_amounts, initial_add_checks.
   assert (E1 : (exact_std <? 0) = false) by (apply Z.ltb_ge; lia).
   assert (E2 : (max_tok <? 0) = false) by (apply Z.ltb_ge; lia).
-  rewrite E1, E2. cbn [negb].
-  rewrite <- Z.ltb_antisym.
-  destruct (0 <? wl_amt); [|reflexivity].
-  destruct (negb pool_exists).
-  - destruct (negb (p_cap p <? exact_std)); [|reflexivity].
-    destruct (negb (exact_std <? min_liq)); reflexivity.
-  - destruct (liq =? 0).
-    + destruct (negb (p_cap p <? exact_std)); [|reflexivity].
-      destruct (negb (exact_std <? min_liq)); reflexivity.
-    + reflexivity.
+  rewrite ?E1, ?E2. cbn [negb].
+  first [ solve [ rewrite <- Z.ltb_antisym;
+                  destruct (0 <? wl_amt); [|reflexivity];
+                  destruct (negb pool_exists);
+                  [ destruct (negb (p_cap p <? exact_std)); [|reflexivity];
+                    destruct (negb (exact_std <? min_liq)); reflexivity
+                  | destruct (liq =? 0);
+                    [ destruct (negb (p_cap p <? exact_std)); [|reflexivity];
+                      destruct (negb (exact_std <? min_liq)); reflexivity
+                    | reflexivity ] ] ]
+        | solve [ destruct pool_exists; normalise ] ].
 Qed.
 
 Lemma agree_AddLiquidity_inputs : gen_AddLiquidity_inputs =
@@ -293,7 +266,7 @@ Proof. reflexivity. Qed.
 Lemma agree_addLiquidity : forall std_amt tok_amt mint_amt,
   gen_addLiquidity std_amt tok_amt mint_amt =
   (guard (negb (mint_amt <? 0)) ;; Some [std_amt; tok_amt; mint_amt; mint_amt; mint_amt]).
-Proof. reflexivity. Qed.
+Proof. intros; first [ reflexivity | unfold gen_addLiquidity; normalise ]. Qed.
 Lemma agree_addLiquidity_inputs : gen_addLiquidity_inputs = ["arg3.Amount"; "arg4.Amount"; "arg6"]%string.
 Proof. reflexivity. Qed.
 
@@ -344,7 +317,7 @@ Definition m_remove_amounts (stdres tokres liq w min_std min_tok : Z) : option (
 
 Lemma agree_RemoveLiquidity : forall min_std min_tok w tokres stdres liq,
   gen_RemoveLiquidity min_std min_tok w tokres stdres liq = m_remove_amounts stdres tokres liq w min_std min_tok.
-Proof. reflexivity. Qed.
+Proof. intros; first [ reflexivity | unfold gen_RemoveLiquidity, m_remove_amounts; normalise ]. Qed.
 
 Lemma agree_RemoveLiquidity_inputs : gen_RemoveLiquidity_inputs =
   [ "arg1.MinStandardAmt";
@@ -364,7 +337,7 @@ Proof. reflexivity. Qed.
 (* removeLiquidity: takes and burns the liquidity token, pays out both coins *)
 Lemma agree_removeLiquidity : forall w std_w tok_w,
   gen_removeLiquidity w std_w tok_w = Some [w; w; std_w; tok_w; std_w; tok_w].
-Proof. reflexivity. Qed.
+Proof. intros; first [ reflexivity | unfold gen_removeLiquidity; normalise ]. Qed.
 Lemma agree_removeLiquidity_inputs : gen_removeLiquidity_inputs = ["arg3.Amount"; "arg4.Amount"; "arg5.Amount"]%string.
 Proof. reflexivity. Qed.
 
